@@ -19,7 +19,7 @@ def two_distinct(s):
 class C04(Prop):
     ID = "C04"
     SOURCES = hcm.SOURCES
-    LEAN_MODULES = ["Proofs.C04"]
+    LEAN_MODULES = ["Proofs.C04", "Proofs.C04PrependCode"]
     PARALLEL = 16
     THEOREMS = [
         # about the model of the code as it is (`twoPass`)
@@ -40,6 +40,8 @@ class C04(Prop):
         "PylifeVerif.C04.prf_rotate",
         "PylifeVerif.C04.cyclicReversals_insert",
         "PylifeVerif.C04.cyclicReversals_rotate",
+        # a sample prepended between the first sample and both 0 and the last sample is not a reversal either (code model)
+        "PylifeVerif.C04.hcm_prepend_nonreversal_code",
     ]
     PARTIAL = {"PylifeVerif.C04.pass2_eq_periodicRainflow_partial": "for the code as it is, 'pass 2 = closed cycles of the repeated sequence' is proved under the decidable guard C04.FirstRunFlushes (the first run flushes its last sample); without it the statement is refuted in the kernel at [500,200,400,100] (pass2_eq_periodicRainflow_fails_at_witness) - the open known finding first-run-defers-last-sample. The full statement is proved for the repaired variant twoPassR (pass2_eq_periodicRainflow), and twoPass = twoPassR under the guard (twoPass_eq_twoPassR)."}
     RULE = ("case = load sequence (>= 2 distinct values) for one assessment point with an exact stub notch law; quick: all sequences over "
